@@ -77,7 +77,7 @@ def gen_recipe(rng, name: str, want: dict | None = None) -> dict:
     cchoices = []
     if has_a:
         scale = rng.choice(["lin", "lin", "log"])
-        n = rng.randint(3, 7)
+        n = rng.choice([2, 3, 3, 4, 4, 5, 5, 6, 7])  # two-point grids are legal
         start = round(rng.uniform(0.4, 1.5), 3)
         stop = round(start + rng.uniform(4.0, 9.0), 3)
         node = pick("node", 0.3)
@@ -95,8 +95,8 @@ def gen_recipe(rng, name: str, want: dict | None = None) -> dict:
                 cchoices.append({"name": "s", "scale": sscale, "start": sstart, "stop": sstop, "n": sn})
     if rng.random() < (0.45 if has_a else 0.6) or (not dchoices and not cchoices):
         en = rng.randint(3, 6)
-        while cchoices and en == cchoices[0]["n"]:
-            en = rng.randint(3, 7)  # unequal grid sizes
+        while cchoices and en == cchoices[0]["n"] and rng.random() < 0.75:
+            en = rng.randint(3, 7)  # mostly unequal grid sizes (a swap of the two axes then shows in the shapes), sometimes equal
         cchoices.append({"name": "e", "scale": "lin", "start": 0.0, "stop": round(rng.uniform(0.8, 1.6), 3), "n": en})
     rng.shuffle(cchoices)
 
@@ -107,7 +107,7 @@ def gen_recipe(rng, name: str, want: dict | None = None) -> dict:
         bstart = round(rng.uniform(0.5, 2.0), 3)
         cstate2 = {
             "name": "b", "scale": bscale, "start": bstart, "stop": round(bstart + rng.uniform(2.0, 5.0), 3),
-            "n": rng.randint(3, 5), "trans": rng.choice(["keep", "bdrift", "bmix"]),
+            "n": rng.choice([2, 3, 3, 4, 5]), "trans": rng.choice(["keep", "bdrift", "bmix"]),
         }
 
     # ---- discrete states -----------------------------------------------------------
@@ -178,9 +178,18 @@ def gen_recipe(rng, name: str, want: dict | None = None) -> dict:
             st = "h" if (hany is not None and rng.random() < 0.3) else "l"
             filt = {"kind": kind, "choice": "w", "choice2": choice2, "state": st, "from_period": rng.randint(1, max(1, n_periods - 1)), "step": step}
 
+    if filt:
+        # which end of the choice grid the restriction cuts off: "high" keeps the largest labels
+        # (w >= threshold), "low" keeps the smallest (w <= top - threshold); either way the admissible
+        # set is never empty, but with "low" the LAST combination of the product is often infeasible
+        # "unlock_*": the admissible set GROWS with the restricted state (experience unlocks options), so
+        # that the numbers of feasible choices per state come in increasing order (1, 2, 3) as well
+        filt["dir"] = rng.choice(["high", "high", "low", "unlock_low", "unlock_high"])
+
     # a second filter function; together with the first one the model then has filters with
     # mixed period dependence (one takes _period, the other does not)
-    if filt and n_periods >= 2 and rng.random() < (0.45 if n_periods == 2 else 0.6):
+    # (not with "unlock_low": there the first label is the only admissible one in the first state)
+    if filt and filt["dir"] != "unlock_low" and n_periods >= 2 and rng.random() < (0.45 if n_periods == 2 else 0.6):
         filt["gate_from"] = rng.randint(1, max(1, n_periods - 1))
 
     # ---- auxiliaries, constraints, coefficients ----------------------------------------
@@ -457,7 +466,15 @@ def render(recipe: dict) -> tuple[str, dict]:
         lhs = w + (f" + {w2}" if w2 else "")
         # threshold 0 for the first label of the state (everything passes), increasing with the
         # state, never above the largest choice (which therefore always passes)
-        cond = f"{lhs} >= xp.minimum({l} * {filt.get('step', 1)}, {top})"
+        thr = f"xp.minimum({l} * {filt.get('step', 1)}, {top})"
+        if filt.get("dir", "high") == "low":
+            cond = f"{lhs} <= {top} - {thr}"
+        elif filt.get("dir") == "unlock_low":
+            cond = f"{lhs} <= {thr}"
+        elif filt.get("dir") == "unlock_high":
+            cond = f"{lhs} >= {top} - {thr}"
+        else:
+            cond = f"{lhs} >= xp.minimum({l} * {filt.get('step', 1)}, {top})"
         fargs = [w] + ([w2] if w2 else []) + [l]
         if filt["kind"] == "lock":
             add("lock_filter", fargs, [], [f"return {cond}"])
